@@ -5,7 +5,8 @@
    [rz] is the ASAN redzone (0 in production builds, 128 under ASAN poisoning). *)
 From Coq Require Import NArith ZArith List Bool.
 From ZV.Gen Require Import Gen_C14.
-From ZV.Mem Require Import Cwksp CwkspProofs Estimate EstimateProofs LevelDefs LevelProofs DBuffers DBuffersProofs C14Final.
+From ZV.Mem Require Import Cwksp CwkspProofs Estimate EstimateProofs LevelDefs LevelProofs DBuffers DBuffersProofs C14Final
+                          History HistoryProofs HistoryLevels CParamsProofs NegLevelProofs.
 Import ListNotations.
 Local Open Scope N_scope.
 
@@ -115,7 +116,7 @@ Print Assumptions heap_cdict_suffices.
 (* ---------- levels: estimate_monotone_level ---------- *)
 (* finite sweep (22 rows x 27 source-size classes, [vm_compute]) lifted to every level pair and EVERY source size:
    level_covered l L := 0 <= l <= L /\ (l = 0 -> 3 <= L)   (level 0 is an alias of the default level 3).
-   Negative levels: see docs/C14.md (validated per run, not in this theorem). *)
+   Negative levels: theorems negative_levels_* below. *)
 
 Theorem sweep_production_build : sweep_oneshot 0 = true /\ sweep_stream 0 = true.
 Proof. exact (conj sweep_oneshot_0 sweep_stream_0). Qed.
@@ -165,6 +166,97 @@ Theorem levels_static_stream_ok :
                   Forall (entry_in start size) log.
 Proof. exact levels_static_stream_ok_l. Qed.
 Print Assumptions levels_static_stream_ok.
+
+(* negative ("fast") levels: any l < 0 uses table row 0 with another targetLength, which no sizing function reads;
+   row 0 is swept against the estimate of level 1, so every L >= 1 covers every negative level at every source size *)
+Theorem sweep_negative_levels : sweep_neg 0 = true /\ sweep_neg 128 = true.
+Proof. exact (conj sweep_neg_0 sweep_neg_128). Qed.
+Print Assumptions sweep_negative_levels.
+
+Theorem negative_levels_covered :
+  forall rz l L s, sweep_neg rz = true -> (l < 0)%Z -> (1 <= L)%Z -> s <= UNKNOWN ->
+    need_simple rz l s <= estimateCCtxSize rz L /\ need_compress2 rz l s <= estimateCCtxSize rz L /\
+    need_stream rz l s <= estimateCStreamSize rz L.
+Proof. exact neg_levels_covered_l. Qed.
+Print Assumptions negative_levels_covered.
+
+Theorem negative_levels_static_oneshot_ok :
+  forall rz start size l L s,
+    sweep_neg rz = true -> (l < 0)%Z -> (1 <= L)%Z -> s <= UNKNOWN -> start mod 8 = 0 ->
+    estimateCCtxSize rz L <= size ->
+    exists w log, static_simple_session rz start size l s = SessDone w log /\
+                  allocFailed w = false /\ ws_start w = start /\ ws_end w = start + size /\
+                  Forall (entry_in start size) log.
+Proof. exact neg_levels_static_oneshot_ok_l. Qed.
+Print Assumptions negative_levels_static_oneshot_ok.
+
+(* ---------- context reuse: histories of resets on ONE static context ---------- *)
+
+(* static_history_served_iff_fits: after ZSTD_initStaticCCtx, for EVERY sequence of reset requests (any parameters the
+   library can issue, any order, served and refused ones interleaved): a request is refused (memory_allocation) exactly
+   when its neededSpace exceeds the block, and is otherwise served completely inside the block - no reservation fails,
+   ZSTD_cwksp_used <= block size - whatever was executed before.  The workspaceOversizedDuration counter of a static
+   context stays 0, so the "wasteful workspace" branch of the size gate never turns into an error. *)
+Theorem static_history_served_iff_fits :
+  forall rz start size reqs l0 outs,
+    static_history rz start size reqs = Some (l0, outs) ->
+    Forall req_ok reqs ->
+    Forall2 (served_iff_fits rz start size) reqs outs.
+Proof. exact static_history_served_iff_fits_l. Qed.
+Print Assumptions static_history_served_iff_fits.
+
+Theorem static_history_never_resizes :
+  forall rz start size reqs l0 outs n,
+    static_history rz start size reqs = Some (l0, outs) -> Forall req_ok reqs -> ~ In (ResetResize n) outs.
+Proof. exact static_history_never_resizes_l. Qed.
+Print Assumptions static_history_never_resizes.
+
+(* a static context of ZSTD_estimateCCtxSize(L) serves ANY history of ZSTD_compressCCtx calls at covered levels
+   l <= L and any source sizes *)
+Theorem levels_static_history_ok :
+  forall rz start size L p hops l0 outs cxf,
+    sweep_oneshot rz = true ->
+    Forall (hop_level_ok L) hops ->
+    estimateCCtxSize rz L <= size ->
+    static_history_hops rz start size p hops = Some (l0, outs, cxf) ->
+    length outs = length hops /\ Forall (served_ok start size) outs.
+Proof. exact levels_static_history_ok_l. Qed.
+Print Assumptions levels_static_history_ok.
+
+(* ---------- estimate*_usingCParams(c) + exactly c ---------- *)
+(* explicit_cp c: the six memory-relevant cParams are set (non-zero); level and targetLength are arbitrary.
+   A static context of ZSTD_estimateCCtxSize_usingCParams(c) completes the reset of ZSTD_compress2 with exactly c for
+   EVERY source size (ZSTD_adjustCParams_internal only shrinks windowLog / chainLog / hashLog, the need is monotone in
+   them, in the auto-enabled LDM tables and in the pledged size, and the estimator takes the larger row mode). *)
+Theorem cparams_static_compress2_ok :
+  forall rz start size lvl cp inb outb s,
+    explicit_cp cp -> s <= UNKNOWN -> start mod 8 = 0 ->
+    estimateCCtxSize_usingCParams rz cp <= size ->
+    exists w log, static_stream2_session rz start size (cparams_pp lvl cp inb outb) s true = SessDone w log /\
+                  allocFailed w = false /\ ws_start w = start /\ ws_end w = start + size /\
+                  Forall (entry_in start size) log.
+Proof. exact cparams_static_compress2_ok_l. Qed.
+Print Assumptions cparams_static_compress2_ok.
+
+(* same for ZSTD_estimateCStreamSize_usingCParams(c) + ZSTD_compressStream2 with exactly c, any buffer modes *)
+Theorem cparams_static_stream_ok :
+  forall rz start size lvl cp inb outb s,
+    explicit_cp cp -> s <= UNKNOWN -> start mod 8 = 0 ->
+    estimateCStreamSize_usingCParams rz cp <= size ->
+    exists w log, static_stream2_session rz start size (cparams_pp lvl cp inb outb) s false = SessDone w log /\
+                  allocFailed w = false /\ ws_start w = start /\ ws_end w = start + size /\
+                  Forall (entry_in start size) log.
+Proof. exact cparams_static_stream_ok_l. Qed.
+Print Assumptions cparams_static_stream_ok.
+
+(* the monotonicity behind it: the need never grows when a log parameter, the LDM table logs, a buffer or the pledged
+   size shrinks *)
+Theorem estimate_internal_monotone :
+  forall rz a b la lb st row bia bib boa bob pa pb ext mbs,
+    cp_le a b -> ldm_le la lb -> bia <= bib -> boa <= bob -> pa <= pb ->
+    estimate_internal rz a la st row bia boa pa ext mbs <= estimate_internal rz b lb st row bib bob pb ext mbs.
+Proof. exact estimate_internal_mono. Qed.
+Print Assumptions estimate_internal_monotone.
 
 (* ---------- CCtx_params estimators ---------- *)
 (* the estimators resolve row mode and LDM (enable + adjust) before sizing: their value IS the need of a reset whose
